@@ -381,7 +381,20 @@ fn leaf_block(cfg: GenCfg) -> BoxedStrategy<Block> {
         ),
         (
             6,
-            (cond_expr(cfg.allow_rnd, cfg.error_weight / 3), thenable.clone(), prop::option::weighted(0.6, else_stmt(cfg)), prop::collection::vec(simple_stmt(cfg), 0..3))
+            (
+                cond_expr(cfg.allow_rnd, cfg.error_weight / 3),
+                thenable.clone(),
+                prop::option::weighted(0.6, else_stmt(cfg)),
+                // the rest of the line may itself contain an IF (with or without ELSE)
+                prop::collection::vec(
+                    prop_oneof![
+                        5 => simple_stmt(cfg),
+                        1 => (cond_expr(false, 0), thenable.clone(), prop::option::weighted(0.7, thenable.clone()))
+                            .prop_map(|(c, t, e)| Stmt::If { cond: c, then: Branch::Stmt(Box::new(t)), els: e.map(|e| Branch::Stmt(Box::new(e))) }),
+                    ],
+                    0..3,
+                ),
+            )
                 .prop_map(|(cond, then, els, rest)| Block::IfLine { cond, then, els, rest })
                 .boxed(),
         ),
